@@ -7,11 +7,9 @@ import (
 	"errors"
 	"fmt"
 	"math/big"
-	"os"
 	"runtime/debug"
 	"sort"
 	"testing"
-	"time"
 
 	"github.com/ethereum/go-ethereum/common"
 	"github.com/ethereum/go-ethereum/core/state"
@@ -677,11 +675,6 @@ func c27Property(rt *rapid.T, st *vs.S) {
 	evmx.Install(base, cs.world, cs.pre)
 	rules := evmx.Rules(cs.fork)
 
-	if os.Getenv("VERIF_C27_DEBUG") != "" {
-		t0 := time.Now()
-		fmt.Fprintf(os.Stderr, "C27 case start: %s gas=%d resv=%d create=%v %s\n", cs.fork, cs.gas, cs.resv, cs.create, cs.world.Describe())
-		defer func() { fmt.Fprintf(os.Stderr, "C27 case done in %v\n", time.Since(t0)) }()
-	}
 	// 1. monitored path first: a violation stops here, before the unmonitored run could
 	// act on it (e.g. allocate unpaid memory)
 	mon := c27NewMonitor(cs.fork)
